@@ -8,13 +8,20 @@
    through the reference index (cycles included).
    C07_load_exactly / C07_unload_exactly: a load (unload) whose flows succeed notifies EXACTLY the symbols that
    reach the start symbol through references and pass the activation test - no more, no fewer.
-   PARTIAL: that the reference index is the reverse of the resolved port references in every reachable state, and
-   hence that a symbol an operation does not walk keeps its status (the cross-operation half of "exactly", and
-   the strict load/unload alternation), is not proved in Coq; it is evaluated after every operation of every
-   generated history both on the implementation (directly, by a Go oracle that recomputes the closure from the
-   specs) and against the model (per-instance notification sequences and active sets must coincide). *)
+   C07_active_exactly: along EVERY history of Insert / Free / Close in which references carry an id or a name (not
+   both), a name is used by one symbol of a namespace at a time, every inserted symbol is a new instance and the
+   lifecycle flows succeed, the instances with a load notification and no later unload are, after every operation,
+   EXACTLY the present symbols whose whole reference closure is present (and nothing else is active).
+   C07_close_unloads_all: after Close no symbol is left and none is active.
+   (Proof: the reference index is exactly the reverse of the resolved references - Table/RefsProofs.v; the walk of an
+   operation is the backward closure of the symbol being inserted or removed; adding a symbol completes exactly the
+   closures of symbols that reach it and leaves the others as they were; removing it breaks exactly those.)
+   PARTIAL: the strict load/unload ALTERNATION per instance (no notification is sent twice in a row) is not a Coq
+   theorem; it is evaluated after every operation of every generated history on the implementation (a Go oracle that
+   recomputes the closure from the specs) and against the model (per-instance notification sequences must coincide).
+   The history condition is computable (wf2_from_b); every generated history of the correspondence run meets it. *)
 From Coq Require Import List NArith ZArith Bool.
-From Uf Require Import Table.Table Table.TableProofs Table.ClosureProofs Table.OrderProofs.
+From Uf Require Import Table.Table Table.TableProofs Table.ClosureProofs Table.OrderProofs Table.RefsProofs Table.ActiveProofs.
 Import ListNotations.
 
 Theorem C07_unload_before_close : forall st id sb, find_sym st id = Some sb ->
@@ -88,3 +95,26 @@ Theorem C07_unload_exactly : forall st sb, snd (unload st sb) = None ->
       exists s, In s (linked st sb) /\ s_inst s = i /\ reachable st sb (s_id s) /\ is_activated st s = true.
 Proof. exact unload_exactly. Qed.
 Print Assumptions C07_unload_exactly.
+
+Theorem C07_active_exactly : forall ops, wf2_from t_init ops ->
+  (forall s, In s (syms (t_run ops)) -> (In (s_inst s) (active_insts (events (t_run ops))) <-> closure_ok (t_run ops) s)) /\
+  (forall i, In i (active_insts (events (t_run ops))) -> exists s, In s (syms (t_run ops)) /\ s_inst s = i).
+Proof. exact active_exactly. Qed.
+Print Assumptions C07_active_exactly.
+
+Theorem C07_close_unloads_all : forall ops, wf2_from t_init ops ->
+  syms (t_step (t_run ops) TClose) = [] /\ active_insts (events (t_step (t_run ops) TClose)) = [].
+Proof. exact close_unloads_all. Qed.
+Print Assumptions C07_close_unloads_all.
+
+(* non-vacuity: a chain c -> b -> a (b by name), built out of order, a replaced, then removed: the history is well
+   formed, and the active instances are what the theorem says *)
+Example C07_ex_active :
+  let a := mksym 0 1 0 (Some 5) [] true [1; 2] [0] None in
+  let b := mksym 1 2 0 None [(1, [mkpref None (Some 5) 0])] true [1; 2] [0] None in
+  let c := mksym 2 3 0 None [(1, [mkpref (Some 2) None 0])] true [1; 2] [0] None in
+  let a' := mksym 3 1 0 (Some 5) [] true [1; 2] [0] None in
+  let ops := [TInsert c; TInsert b; TInsert a; TInsert a'; TFree 1] in
+  wf2_from t_init ops /\
+  map (fun n => active_insts (events (t_run (firstn n ops)))) [1; 2; 3; 4; 5] = [[]; []; [0; 1; 2]; [3; 1; 2]; []].
+Proof. cbv zeta. split; [apply wf2_from_b_sound; vm_compute; reflexivity|vm_compute; reflexivity]. Qed.
